@@ -949,12 +949,12 @@ impl NodeDeletionEntry {
         daily_log: &mut DailyMutations,
         conn: &Connection,
     ) -> std::result::Result<(), rusqlite::Error> {
-        let query = "DELETE FROM _node WHERE room_id=? AND id=?";
+        let query = "DELETE FROM _node WHERE room_id=? AND id=? AND mdate <= ?";
         let mut stmt = conn.prepare_cached(query)?;
         for node in nodes {
             #[cfg(discret_verif)]
             crate::verif::fault_point("stmt_sync_del_node")?;
-            stmt.execute((node.room_id, node.id))?;
+            stmt.execute((node.room_id, node.id, node.mdate))?;
             node.write(conn)?;
             daily_log.set_need_update(node.room_id, &node.entity, node.deletion_date);
             daily_log.set_need_update(node.room_id, &node.entity, node.mdate);
